@@ -205,7 +205,7 @@ def rule_qminv(ctx):
 def rule_cmcanon(ctx):
     from . import C12
     facts = ctx.facts()
-    C12.serializer_obligations(ctx, facts, rule="CM-CANON")
+    C12.serializer_obligations(ctx, facts, rule="CM-CANON", scope="parsed")
 
 
 RULES = [
